@@ -93,10 +93,12 @@ def removed_set_bases(repo, run, rule):
                 if not (isinstance(x, ast.BinOp) and isinstance(x.op, ast.Add) and pathbase.base(x, {'prefix': 'P'}) == 'P' and isinstance(x.right, (ast.List, ast.Tuple)) and len(x.right.elts) == 1) \
                         or rm is None or rm.text != 'removed':
                     bad = (e, 'filter_nodes does not thread prefix=prefix + [name] / removed through its recursion')
-    if not adds or not recs:
-        raise AnalysisError('filter_nodes: removed.add(prefix + [name]) / recursion not recognised')
-    if bad:
-        run.violation(rule, tr.where(fn, bad[0]), bad[0].callee[:100], bad[1])
+    # (which paths end up in the removed set is decided by evaluation on a concrete tree with a prefix: unitrules.filter_nodes_table;
+    # the shape read off the trace is only reported when it is the recognised one)
+    from . import unitrules
+    unitrules.filter_nodes_table(repo, run, rule)
+    if not adds or not recs or bad:
+        run.info(rule, fn, 'filter_nodes: removed.add(...) / recursion', 'not in the recognised shape on the trace; decided by the evaluated table')
     else:
         run.ok(rule, fn, 'filter_nodes: removed.add(prefix + [name]); recursion with prefix + [name] and the same set', 'recursion extends the prefix and shares the removed set')
 
